@@ -31,6 +31,7 @@ void operator delete[](void *p, std::size_t) noexcept { std::free(p); }
 #include <amgcl/make_solver.hpp>
 #include <amgcl/amg.hpp>
 #include <amgcl/adapter/crs_tuple.hpp>
+#include <amgcl/adapter/zero_copy.hpp>
 #include <amgcl/coarsening/runtime.hpp>
 #include <amgcl/relaxation/runtime.hpp>
 #include <amgcl/solver/runtime.hpp>
@@ -152,7 +153,7 @@ int main(int argc, char **argv) {
     auto mats = matrices();
     unsigned ces[] = {0u, 1u, 3000u}, mls[] = {1u, 2u, 100u};
     long count = 0;
-    for (size_t mi = 0; mi < mats.size() && mode != "prm"; ++mi) {
+    for (size_t mi = 0; mi < mats.size() && mode != "prm" && mode != "own"; ++mi) {
         if (which != "all" && which != mats[mi].first && which != std::to_string(mi)) continue;
         const crsd &A = *mats[mi].second; int n = A.nrows;
         vec f(n); for (int i = 0; i < n; ++i) f[i] = 1.0 + 0.25 * (i % 3);
@@ -185,6 +186,44 @@ int main(int argc, char **argv) {
                 vr::obj j; j.str("k", "fill").str("m", mats[mi].first).str("c", c.c).str("r", c.r).str("s", c.s).i("ce", c.ce).i("ml", std::min(c.ml, 1000u)).b("dc", c.dc);
                 j.raw("d", ds.str()).ints("cls", cls);
                 vr::emit(j.done());
+            }
+        }
+    }
+    if (mode == "own") {
+        // every way a builtin crs changes hands: a matrix that borrows the user's arrays (adapter::zero_copy) and owned ones
+        // through copy / move construction and assignment.  The user's arrays must survive bitwise and be freed by the
+        // user only, owned arrays must be freed exactly once (the sanitizer build aborts on a foreign or double free and
+        // reports leaks at exit); every matrix that holds data must still be the operator.
+        for (size_t mi = 0; mi < mats.size(); ++mi) {
+            if (which != "all" && which != mats[mi].first) continue;
+            const crsd &A = *mats[mi].second; ptrdiff_t n = A.nrows, nnz = A.ptr[n];
+            vec x(n), want(n, 0.0); for (ptrdiff_t i = 0; i < n; ++i) x[i] = 1 + (i % 4);
+            for (ptrdiff_t i = 0; i < n; ++i) for (ptrdiff_t j = A.ptr[i]; j < A.ptr[i + 1]; ++j) want[i] += A.val[j] * x[A.col[j]];
+            auto is_op = [&](const crsd &M) { if ((ptrdiff_t)M.nrows != n || !M.ptr) return false; vec y(n, 0.0);
+                for (ptrdiff_t i = 0; i < n; ++i) for (ptrdiff_t j = M.ptr[i]; j < M.ptr[i + 1]; ++j) y[i] += M.val[j] * x[M.col[j]];
+                return std::memcmp(y.data(), want.data(), n * sizeof(double)) == 0; };
+            for (int h = 0; h < 9; ++h) {
+                ptrdiff_t *uptr = new ptrdiff_t[n + 1], *ucol = new ptrdiff_t[nnz ? nnz : 1]; double *uval = new double[nnz ? nnz : 1];
+                std::copy(A.ptr, A.ptr + n + 1, uptr); std::copy(A.col, A.col + nnz, ucol); std::copy(A.val, A.val + nnz, uval);
+                bool same = true, flags = true;
+                {
+                    auto Z = amgcl::adapter::zero_copy((size_t)n, uptr, ucol, uval);
+                    flags = !Z->own_data;
+                    switch (h) {
+                        case 0: { crsd M(std::move(*Z)); same = is_op(M); flags = flags && !M.own_data; } break;
+                        case 1: { crsd M(*Z); same = is_op(M) && is_op(*Z); flags = flags && M.own_data && !Z->own_data; } break;
+                        case 2: { crsd M; M = std::move(*Z); same = is_op(M); flags = flags && !M.own_data; } break;
+                        case 3: { crsd M; M = *Z; same = is_op(M) && is_op(*Z); flags = flags && M.own_data; } break;
+                        case 4: { crsd O(A); *Z = std::move(O); same = is_op(*Z); flags = flags && Z->own_data; } break;
+                        case 5: { crsd O(A); O = std::move(*Z); crsd P(std::move(O)); same = is_op(P); flags = flags && !P.own_data; } break;
+                        case 6: { auto S = std::make_shared<crsd>(std::move(*Z)); crsd T(*S); same = is_op(*S) && is_op(T); flags = flags && !S->own_data && T.own_data; } break;
+                        case 7: { crsd O(A); crsd P(std::move(O)); crsd Q; Q = std::move(P); same = is_op(Q); flags = flags && Q.own_data; } break;
+                        case 8: { crsd M(std::move(*Z)); *Z = std::move(M); same = is_op(*Z); flags = flags && !Z->own_data; } break;
+                    }
+                }
+                bool intact = std::memcmp(uptr, A.ptr, (n + 1) * sizeof(ptrdiff_t)) == 0 && std::memcmp(ucol, A.col, nnz * sizeof(ptrdiff_t)) == 0 && std::memcmp(uval, A.val, nnz * sizeof(double)) == 0;
+                delete[] uptr; delete[] ucol; delete[] uval;
+                vr::obj j; j.str("k", "own").str("m", mats[mi].first).i("h", h).b("intact", intact).b("same", same).b("flags", flags); vr::emit(j.done());
             }
         }
     }
